@@ -137,6 +137,15 @@ type Kernel struct {
 	// no-ops for this run.
 	MuteAuto bool
 
+	// knownMu are the mutexes seen at hand-placed lock hooks.  An inserted
+	// yield is skipped while any of them is locked: a task must never park
+	// inside a critical section of the code under test, because a Lock() that
+	// has no hand-placed hook in front of it would then block in a way the
+	// bubble cannot see.  Written and read by task goroutines in norace
+	// functions; tasks run one at a time.
+	knownMu  [8]*sync.Mutex
+	nKnownMu int
+
 	// AfterDrain, if set, is called on the scheduler goroutine after the
 	// notes of a step have been processed (end-of-step invariants).
 	AfterDrain func()
@@ -336,14 +345,42 @@ func HookPoint(site string, mu *sync.Mutex) {
 	if k == nil {
 		return
 	}
-	if k.MuteAuto && len(site) > 5 && site[:5] == "auto:" {
-		return
+	if len(site) > 5 && site[:5] == "auto:" {
+		if k.MuteAuto || k.anyKnownMutexLocked() {
+			return
+		}
+	} else if mu != nil {
+		k.rememberMutex(mu)
 	}
 	k.park(&note{o: Opts{Site: site, Mu: mu}})
 }
 
 // HookSite is HookPoint for hooks without a mutex.
 func HookSite(site string) { HookPoint(site, nil) }
+
+//go:norace
+func (k *Kernel) rememberMutex(mu *sync.Mutex) {
+	for i := 0; i < k.nKnownMu; i++ {
+		if k.knownMu[i] == mu {
+			return
+		}
+	}
+	if k.nKnownMu < len(k.knownMu) {
+		k.knownMu[k.nKnownMu] = mu
+		k.nKnownMu++
+	}
+}
+
+//go:norace
+func (k *Kernel) anyKnownMutexLocked() bool {
+	for i := 0; i < k.nKnownMu; i++ {
+		if atomic.LoadInt32((*int32)(unsafe.Pointer(k.knownMu[i])))&1 != 0 {
+			return true
+		}
+	}
+
+	return false
+}
 
 // mutexLocked peeks at the locked bit of a sync.Mutex.
 //
